@@ -29,7 +29,7 @@ func (condEngine) Name() string     { return "conditions" }
 func (condEngine) Property() string { return "C06" }
 func (condEngine) NumCases(tier string) int {
 	if tier == "thorough" {
-		return 1500000
+		return 6000000
 	}
 	return 60000
 }
